@@ -193,6 +193,62 @@ pub fn gen_history(pid: &str, rng: &mut Rng, uni: &Universe, persistent: bool, s
     h
 }
 
+fn dump18(uni: &Universe, queries: &[crate::c05::Q]) -> Vec<SOp> {
+    let mut v = Vec::new();
+    for d in &uni.docs {
+        v.push(SOp::GetAll { ns: d.0 });
+        v.push(SOp::Heads { ns: d.0 });
+        for q in queries {
+            v.push(SOp::Query { ns: d.0, q: q.clone() });
+        }
+    }
+    v.push(SOp::ListNamespaces);
+    v.push(SOp::ContentHashes);
+    v
+}
+
+fn gen_history18(rng: &mut Rng, uni: &Universe, stats: &mut Stats) -> (Vec<SOp>, usize) {
+    use crate::c05::{Q, KF};
+    let mut h = Vec::new();
+    for d in &uni.docs {
+        h.push(SOp::Import { ns: d.0, secret: Some(d.1) });
+    }
+    // key-ordered and latest-per-key queries, asked before and after every reopen
+    let w = World { ns: iroh_docs::NamespaceSecret::from_bytes(&uni.docs[0].1), authors: uni.authors.clone() };
+    let mut queries: Vec<Q> = vec![
+        Q { latest: false, by_key: true, author: None, key: KF::Any, limit: None, offset: 0, include_empty: true, desc: false },
+        Q { latest: true, by_key: false, author: None, key: KF::Any, limit: None, offset: 0, include_empty: true, desc: false },
+        Q { latest: true, by_key: false, author: None, key: KF::Any, limit: None, offset: 0, include_empty: false, desc: true },
+    ];
+    for _ in 0..4 {
+        queries.push(crate::c05::gen_query(rng, &w, stats));
+    }
+    let dl = dump18(uni, &queries).len();
+    let rounds = 1 + rng.below(3);
+    for _ in 0..rounds {
+        for _ in 0..rng.below(12) {
+            let doc = rng.below(uni.docs.len() as u64) as usize;
+            h.push(gen_entry_op(rng, uni, doc, stats));
+        }
+        if rng.chance(1, 6) {
+            h.push(SOp::Remove { ns: uni.docs[0].0 });
+            h.push(SOp::Import { ns: uni.docs[0].0, secret: Some(uni.docs[0].1) });
+        }
+        // 1-3 reopen cycles, the first possibly with derived tables deleted
+        h.extend(dump18(uni, &queries));
+        let (l, b) = match rng.below(5) { 0 => (false, false), 1 => (true, false), 2 => (false, true), _ => (true, true) };
+        stats.inc(&format!("wipe_heads{}_index{}", l, b));
+        h.push(SOp::WipeReopen { latest: l, bykey: b });
+        h.extend(dump18(uni, &queries));
+        for _ in 0..rng.below(3) {
+            h.push(SOp::Reopen);
+            h.extend(dump18(uni, &queries));
+            stats.inc("plain_reopen");
+        }
+    }
+    (h, dl)
+}
+
 pub fn run(pid: &str, seed: u64, n: usize, out: &Path, _thorough: bool) -> anyhow::Result<()> {
     let code: u64 = pid[1..].parse()?;
     let mut rng = Rng::new(seed ^ (0x5700 + code));
@@ -201,8 +257,15 @@ pub fn run(pid: &str, seed: u64, n: usize, out: &Path, _thorough: bool) -> anyho
     let mut distinct = std::collections::HashSet::new();
     for i in 0..n {
         let uni = Universe::new(seed.wrapping_add((i % 4) as u64), 2 + (i % 2), 1 + rng.below(3) as usize);
-        let persistent = rng.chance(1, 3);
-        let ops = gen_history(pid, &mut rng, &uni, persistent, &mut stats);
+        let persistent = pid == "C18" || rng.chance(1, 3);
+        let mut dump_len = 0usize;
+        let ops = if pid == "C18" {
+            let (h, dl) = gen_history18(&mut rng, &uni, &mut stats);
+            dump_len = dl;
+            h
+        } else {
+            gen_history(pid, &mut rng, &uni, persistent, &mut stats)
+        };
         let mut m = Machine::new(persistent, uni.authors.clone())?;
         let mut hist = Vec::new();
         for op in ops {
@@ -216,7 +279,11 @@ pub fn run(pid: &str, seed: u64, n: usize, out: &Path, _thorough: bool) -> anyho
         stats.inc(if persistent { "store_file" } else { "store_memory" });
         stats.add("ops", hist.len() as u64);
         let (ch, jh) = history_terms(&uni.authors, &hist);
-        let coq = format!("(mkCase {} {} {})", code, clist(&uni.all_ids(), |i| n256(i)), ch);
+        let coq = if pid == "C18" {
+            format!("(mkCase {} [{}] {})", code, dump_len, ch)
+        } else {
+            format!("(mkCase {} {} {})", code, clist(&uni.all_ids(), |i| n256(i)), ch)
+        };
         let json = format!("{{\"store\":\"{}\",\"history\":{}}}", if persistent { "file" } else { "memory" }, jh);
         let interesting = hist.iter().any(|(o, r)| match (pid, o, r) {
             ("C07", SOp::Import { .. }, SRes::Import("ImpUpgraded")) => true,
@@ -224,6 +291,7 @@ pub fn run(pid: &str, seed: u64, n: usize, out: &Path, _thorough: bool) -> anyho
             ("C15", SOp::GetPolicy { .. }, SRes::Policy(p)) => *p != Default::default(),
             ("C16", SOp::Remove { .. }, SRes::Unit) => true,
             ("C17", SOp::GetPeers { .. }, SRes::Peers(Some(l))) => l.len() >= 2,
+            ("C18", SOp::Heads { .. }, SRes::Heads(l)) => !l.is_empty(),
             _ => false,
         });
         if interesting && distinct.insert(coq.clone()) {
